@@ -203,4 +203,23 @@ def uiStressOp (j : Json) : Except String Res := do
                    ("frame_height_matches_state", n "badheights" == 0)],
          nontrivial := (impl.getObjVal? "frames_emitted").toOption == some (Json.bool true) }
 
+
+/-- `mainpty`: the program on a pseudo terminal.  After every step, once the screen is at rest,
+    the frame on it has as many lines as the terminal has rows (`Ui.frame` has the height of the
+    state, C16.view_height; main's poller hands every size it reads to `SetWidthHeight`). -/
+def mainPtyOp (j : Json) : Except String Res := do
+  let impl := (j.getObjVal? "impl").toOption.getD Json.null
+  let obs : List Json := match impl.getObjVal? "observed" with | .ok (Json.arr a) => a.toList | _ => []
+  let ok := obs.all fun o => match o with
+    | Json.arr q => match q[0]?, q[2]?, q[3]?, q[4]? with
+      | some (Json.str "exited"), _, _, _ => false
+      | _, some hj, some (Json.bool drawn), some lj =>
+        (match hj.getNat?, lj.getNat? with
+         | .ok h, .ok l => h < 2 || (drawn && l == h)
+         | _, _ => false)
+      | _, _, _, _ => false
+    | _ => false
+  let ran := !obs.isEmpty
+  pure { model := impl, preds := [("frames_have_terminal_height", !ran || ok)], nontrivial := obs.length ≥ 3 }
+
 end Ops
